@@ -43,30 +43,40 @@ Inductive sch :=
 Definition null_sch : sch := SSch (TyOne JTNull) false [] [] [] [] None None None o_none.
 Definition mem_jty (t : jty) (l : list jty) : bool := existsb (jty_eqb t) l.
 
-(* handle_nullable on one schema object whose children are already validated. The model resets the flag: after validation
-   `nullable` is never read again (the harness checks that schema.py is the only reader). *)
+(* handle_nullable on one schema object whose children are already validated. The flag itself stays set (nothing reads it
+   after validation: the harness checks that schema.py is the only reader), so a second run sees it again. *)
 Definition hn (ty : tyspec) (nl : bool) (en : list jval) (any one all : list sch) (items : option sch)
               (fmt : option str) (d : option jval) (o : other) : sch :=
-  if negb nl then SSch ty false en any one all items fmt d o
+  if negb nl then SSch ty nl en any one all items fmt d o
   else match ty with
-       | TyOne t => SSch (TyList [t; JTNull]) false en any one all items fmt d o
-       | TyList l => SSch (TyList (if mem_jty JTNull l then l else l ++ [JTNull])) false en any one all items fmt d o
+       | TyOne t => SSch (TyList [t; JTNull]) nl en any one all items fmt d o
+       | TyList l => SSch (TyList (if mem_jty JTNull l then l else l ++ [JTNull])) nl en any one all items fmt d o
        | TyAbsent =>
            match one, any, all with
-           | _ :: _, _, _ => SSch TyAbsent false en any (one ++ [null_sch]) all items fmt d o
-           | [], _ :: _, _ => SSch TyAbsent false en (any ++ [null_sch]) one all items fmt d o
+           | _ :: _, _, _ => SSch TyAbsent nl en any (one ++ [null_sch]) all items fmt d o
+           | [], _ :: _, _ => SSch TyAbsent nl en (any ++ [null_sch]) one all items fmt d o
            | [], [], _ :: _ =>
-               SSch TyAbsent false en any [null_sch; SSch TyAbsent false [] [] [] all None None None o_none] [] items fmt d o
-           | [], [], [] => SSch TyAbsent false en any one all items fmt d o
+               SSch TyAbsent nl en any [null_sch; SSch TyAbsent false [] [] [] all None None None o_none] [] items fmt d o
+           | [], [], [] => SSch TyAbsent nl en any one all items fmt d o
            end
        end.
 
+(* a schema nested inside another schema (properties, items, additionalProperties, anyOf/oneOf/allOf members): validated once *)
 Fixpoint pre (s : sch) : sch :=
   match s with
   | SRef r => SRef r
   | SSch ty nl en any one all items fmt d o =>
       hn ty nl en (map pre any) (map pre one) (map pre all) (option_map pre items) fmt d o
   end.
+
+(* a schema held directly by a non-Schema object (components.schemas.<name>, Parameter.schema, MediaType.schema, Header.schema):
+   with the pinned pydantic the `after` validators run TWICE on that object (observed; its children are not revalidated) *)
+Definition hn_again (s : sch) : sch :=
+  match s with
+  | SRef r => SRef r
+  | SSch ty nl en any one all items fmt d o => hn ty nl en any one all items fmt d o
+  end.
+Definition pre_at (top : bool) (s : sch) : sch := if top then hn_again (pre s) else pre s.
 
 (* handle_exclusive_min_max, one bound (the maximum is symmetric): 3.0 boolean form -> 3.1 numeric form *)
 Inductive excl := XAbsent | XBool (b : bool) | XNum (x : Z).
@@ -244,7 +254,8 @@ Fixpoint build (c : cfg) (e : env) (parent : str) (s : sch) {struct s} : kid :=
       end
   end.
 
-Definition norm (c : cfg) (e : env) (parent : str) (s : sch) (name : str) : tree := build c e parent (pre s) name.
+(* top = the schema sits directly under a non-Schema object *)
+Definition norm (c : cfg) (e : env) (parent : str) (top : bool) (s : sch) (name : str) : tree := build c e parent (pre_at top s) name.
 
 (* ------------------------------------------------------------------ guards *)
 (* enum-with-null == explicit union: outside a type list (a nullable flag on a typed schema becomes one) *)
@@ -313,6 +324,7 @@ Definition bound_eqb (a b : bound) : bool :=
 (* ------------------------------------------------------------------ loader: _get_document / _load_yaml_or_json *)
 Definition s_app_json : str := [97;112;112;108;105;99;97;116;105;111;110;47;106;115;111;110].
 Inductive parser := PJson | PYaml.
+Definition parser_eqb (a b : parser) : bool := match a, b with PJson, PJson | PYaml, PYaml => true | _, _ => false end.
 Definition choose_parser (content_type : option str) : parser :=
   match content_type with Some ct => if str_eqb ct s_app_json then PJson else PYaml | None => PYaml end.
 
